@@ -15,7 +15,7 @@ from vmon.props.c11 import plain_item, solo_result
 
 LEVEL = "exploration"
 SHARDS = {"quick": 16, "thorough": 16}
-MUST = ["roundtrip.xml_route", "roundtrip.object_route", "decode.equivalence_packets", "selfcheck.reader", "bundled.documents",
+MUST = ["objects.listed_top-level", "roundtrip.xml_route", "roundtrip.object_route", "decode.equivalence_packets", "selfcheck.reader", "bundled.documents",
         "directed.attributes"]
 RULE = ("case = generated IR (every parameter-type kind, encoding, calibrator, criteria form, length specification, "
         "descriptions, units, abstract flags, inheritance) taken through load->write->load by both build routes; "
@@ -63,7 +63,10 @@ def roundtrip(ctx, doc, tag, route, rng, packets=8, style=("prefix", "xtce")):
         ld = monitored(load_definition, G, prefix)
         ctx.count("roundtrip.xml_route")
     else:
-        ld = monitored(build.definition, doc)
+        # object-built definitions list either every container or only those that no other container nests
+        listed = "top-level" if (len(fs) + len(doc.containers)) % 2 and "nested" in fs else "all"
+        ctx.count(f"objects.listed_{listed}")
+        ld = monitored(build.definition, doc, None, "xtce", listed)
         ctx.count("roundtrip.object_route")
         prefix = "xtce"
     ctx.count("evaluations")
@@ -189,6 +192,13 @@ def directed_docs():
     }
     for name, t in dyn_cases.items():
         out.append((name, doc_with(t, (len_t,), (len_p,), entries=le)))
+    # the referenced length is calibrated to a FRACTIONAL value that the slope makes whole again (LEN counts bytes, calibrated to
+    # 16-bit words: odd LEN -> x.5 words -> 16 * x.5 bits)
+    half_t = ir.PType("LEN_Type", "integer", I(4, "unsigned", False, ir.Poly(((0.5, 1),)), ()))
+    for name, t in {"Binary calibrated fractional reference": ir.PType("X_T", "binary", ir.BinEnc(ir.DynLen("LEN", True, 16, None))),
+                    "Binary calibrated fractional reference + intercept": ir.PType("X_T", "binary", ir.BinEnc(ir.DynLen("LEN", True, 16, 8))),
+                    "String calibrated fractional reference": ir.PType("X_T", "string", ir.StrEnc("US-ASCII", ir.DynLen("LEN", True, 16, 8)))}.items():
+        out.append((name, doc_with(t, (half_t,), (len_p,), entries=le)))
     # container-level attributes
     xt = ir.PType("X_T", "integer", I(8))
     yt = ir.PType("Y_T", "integer", I(8))
